@@ -98,7 +98,7 @@ class Xform(Harness):
                     from vf.engine_xh import split_prefixes as _sp
 
                     out += [{**extra, "_prefix": p} for p in _sp(self.body, extra, 8)]
-                if n >= 3:
+                if n >= 3 or (n == 2 and op in ("expand", "split")):
                     from vf.engine_xh import split_prefixes
 
                     out += [{**base, "_prefix": p} for p in split_prefixes(self.body, base, 8 if n == 3 else 32)]
@@ -202,10 +202,24 @@ class Xform(Harness):
     def do_split(self, ch, n):
         spec, names = self.gen(ch, n, outs={k: v for k, v in OUTS.items() if k != "attr"})
         g, nodes = graphgen.build(spec, names)
-        colour = {nm: ch.pick(2, f"colour{j}") for j, nm in enumerate(names)}
+        by_depth = ch.flag("key_looks_at_the_ancestry")
+        if by_depth:
+            # a key function that looks at where the node sits in the graph (parity of its depth), not at its name
+            depth = []
+            for nd_ in spec:
+                depth.append(1 + max([depth[i] for (_, i, _) in nd_["inputs"]], default=-1))
+            colour = {nm: depth[j] % 2 for j, nm in enumerate(names)}
+
+            def node_depth(nd):
+                return 1 + max([node_depth(src.parent) for src in nd.inputs.values()], default=-1)
+
+            keyf = lambda nd: node_depth(nd) % 2  # noqa: E731
+        else:
+            colour = {nm: ch.pick(2, f"colour{j}") for j, nm in enumerate(names)}
+            keyf = lambda nd: colour[nd.name]  # noqa: E731
         want = graphgen.spec_structure(spec, names)
-        ch.note("graph", {"names": names, "op": "split", "colours": colour})
-        parts, cuts = guarded("split", lambda: g_split.split_graph(lambda nd: colour[nd.name], g))
+        ch.note("graph", {"names": names, "op": "split", "colours": colour, "key": "depth parity" if by_depth else "by name"})
+        parts, cuts = guarded("split", lambda: g_split.split_graph(keyf, g))
         seen = {}
         cutnames = {c.name: c for c in cuts}
         for k, pg in parts.items():
@@ -259,12 +273,17 @@ class Xform(Harness):
         ch.assume(bool(outs) or side)  # the template has at least one sink
 
         named_src = (not self._light) and ch.flag("template_source_has_named_outputs")
+        # a genuine source of the template that the input map does not mention, named like an input of the expanded node: it stays a source
+        free_src = use_maps and bool(spec[xi]["inputs"]) and ch.flag("template_has_unmapped_source_named_like_an_input")
 
         def expander(node):
             if node.name != X:
                 return None
             s = Node(src_name, outputs=["p", "q"], payload="tsrc") if named_src else Node(src_name, payload="tsrc")
-            mid = Node("mid", payload="tmid", i=s.get_output("q") if named_src else s)
+            if free_src:
+                mid = Node("mid", payload="tmid", i=s.get_output("q") if named_src else s, j=Node("x", payload="tfree"))
+            else:
+                mid = Node("mid", payload="tmid", i=s.get_output("q") if named_src else s)
             sinks = [Node(leaf(o), outputs=[], payload=("tleaf", o), i=mid) for o in outs]
             extra = [Node("side", outputs=[], payload="tside", i=mid)] if side else []
             sub = Graph(sinks + extra)
@@ -285,6 +304,9 @@ class Xform(Harness):
         else:
             want[f"{X}.{src_name}"] = (souts, repr("tsrc"), ())
         want[f"{X}.mid"] = ((Node.DEFAULT_OUTPUT,), repr("tmid"), (("i", f"{X}.{src_name}", "q" if named_src else Node.DEFAULT_OUTPUT),))
+        if free_src:
+            want[f"{X}.x"] = ((Node.DEFAULT_OUTPUT,), repr("tfree"), ())
+            want[f"{X}.mid"] = (want[f"{X}.mid"][0], want[f"{X}.mid"][1], want[f"{X}.mid"][2] + (("j", f"{X}.x", Node.DEFAULT_OUTPUT),))
         for o in outs:
             want[f"{X}.{leaf(o)}"] = ((Node.DEFAULT_OUTPUT,), repr(("tleaf", o)), (("i", f"{X}.mid", Node.DEFAULT_OUTPUT),))
         # consumers of X are wired to the leaf selected by the output map
@@ -362,8 +384,13 @@ class XformSymNames(Harness):
         return [g_transform.Transformer, g_copy.copy_graph, g_rename.rename_nodes, g_dedup.deduplicate_nodes, g_fuse.fuse_nodes, g_split.split_graph, g_split.Splitter,
                 g_expand.expand_graph, g_expand.Splicer, g_expand._Expander, g_expand._Subgraph]
 
+    _paths = 0
+
     def body(self, ch, params):
         getattr(self, "sym_" + params["op"])(ch, params)
+        # every completed path is a distinct set of branch outcomes over the symbolic names (CrossHair never repeats a path)
+        XformSymNames._paths += 1
+        ch.note("fingerprint", ("path", tuple(sorted(params.items())), XformSymNames._paths))
 
     # -- expand: X is replaced by  S -> L  (L is the leaf named by the output map, or by the same-name fallback) -----
     def sym_expand(self, ch, params):
